@@ -36,7 +36,9 @@ def scenarios(tier):
         # 100 names are taken and two arguments with that very name come in one run: each needs a random suffix of its own
         {'kind': 'file', 'route': 'home-hundred', 'two': True},
         # the directory the home trash lives in is a dangling symbolic link (an unplugged disk): mkdir of the trash dir answers ENOENT every time
-        {'kind': 'file', 'route': 'home-parent-dangling'}, {'kind': 'tree', 'route': 'home-parent-dangling'}]
+        {'kind': 'file', 'route': 'home-parent-dangling'}, {'kind': 'tree', 'route': 'home-parent-dangling'}] + [
+        # files/ already holds a payload without .trashinfo under the very name the argument would get: it must survive whatever call fails
+        {'kind': 'file', 'route': 'home-orphan'}, {'kind': 'tree', 'route': 'home-orphan'}]
 
 
 def level2_filter(tier, scn, op, errno, mut):
@@ -55,7 +57,7 @@ def _layout(s):
     if route == 'inside-entry':
         return '/home/u/w', '/home/u/w/x/T'
     B = '/home/u/w' if route.startswith('home') else '/mnt/v1/w'
-    td = {'home-parent-dangling': scen.HOME_TRASH, 'home-hundred': scen.HOME_TRASH, 'home-cold': scen.HOME_TRASH, 'home-warm': scen.HOME_TRASH, 'top': '/mnt/v1/.Trash/0', 'alt': '/mnt/v1/.Trash-0', 'fallback': scen.HOME_TRASH, 'home-info-file': scen.HOME_TRASH, 'home-info-missing': scen.HOME_TRASH, 'alt+fallback': '/mnt/v1/.Trash-0'}[route]
+    td = {'home-parent-dangling': scen.HOME_TRASH, 'home-hundred': scen.HOME_TRASH, 'home-cold': scen.HOME_TRASH, 'home-warm': scen.HOME_TRASH, 'top': '/mnt/v1/.Trash/0', 'alt': '/mnt/v1/.Trash-0', 'fallback': scen.HOME_TRASH, 'home-info-file': scen.HOME_TRASH, 'home-info-missing': scen.HOME_TRASH, 'alt+fallback': '/mnt/v1/.Trash-0', 'home-orphan': scen.HOME_TRASH}[route]
     return B, td
 
 
@@ -82,6 +84,9 @@ def make_world(s):
         W.dir(td, mode=0o700).dir(td + '/files', mode=0o700)          # left by a run that failed between the two mkdirs
     if s['route'] == 'home-info-file':
         W.dir(td, mode=0o700).dir(td + '/files', mode=0o700).file(td + '/info', 'not a directory\n')
+    if s['route'] == 'home-orphan':
+        scen.add_trash_dir(W, td)
+        W.file(td + '/files/x', 'a payload that lost its .trashinfo; nobody may overwrite it\n')
     if s['route'] == 'home-warm':
         scen.add_trashed(W, td, 'old', B + '/old', '2019-01-01T00:00:00', payload='tree', tag='older')
     return W
@@ -151,6 +156,14 @@ def oracle(s, start, after, r, flts):
                 'detail': dict(detail, decisive_ops=ops, kind=kind, causes=sorted(allc))}
     if r.budget:
         return viol('does-not-terminate')
+    if s['route'] == 'home-orphan' and world.under(start, td + '/files/x') != world.under(after, td + '/files/x'):
+        probe = [t for t in r.trace for f in flts if t[0] == f['at'] and t[1] in ('stat', 'lstat') and f['errno'] in ('ENOENT', 'ENOTDIR', 'ENAMETOOLONG')
+                 and any(p.endswith('/files/x') for p in t[2])]
+        if probe:
+            # the probe of that very name was answered "nothing has this name" (or "no such name can exist"): a statement about the world, not a
+            # failure to find out - taking the name is right in the world described -> don't-care
+            return {'verdict': 'dontcare', 'klass': 'name-probe-answered-free', 'nontrivial': nt, 'detail': detail}
+        return viol('payload-without-info-overwritten')
     pre_intact = False
     if clp is not None:
         # is the first argument in some trash directory as a complete pair (whatever else the faults left lying around)?
